@@ -179,6 +179,27 @@ int main(int argc, char** argv)
         judge("GenEigsSolver" + cs, rp, vg, [&]() { DenseGenMatProd<double> op(Gm); GenEigsSolver<DenseGenMatProd<double>> s(op, 2, 5); s.init(); s.compute(ALL[sel], 100, 1e-8, ALL[srt]); }, L);
         judge("GenEigsRealShiftSolver" + cs, rp, vg, [&]() { DenseGenRealShiftSolve<double> op(Gm); GenEigsRealShiftSolver<DenseGenRealShiftSolve<double>> s(op, 2, 5, 0.3); s.init(); s.compute(ALL[sel], 100, 1e-8, ALL[srt]); }, L);
         judge("GenEigsComplexShiftSolver" + cs, rp, vg, [&]() { DenseGenComplexShiftSolve<double> op(Gm); GenEigsComplexShiftSolver<DenseGenComplexShiftSolve<double>> s(op, 2, 5, 0.3, 0.7); s.init(); s.compute(ALL[sel], 100, 1e-8, ALL[srt]); }, L);
+        // a rejected (or accepted) compute() leaves nothing half-done behind: the operator object handed to a shift solver
+        // still applies the shift given at construction - its answer to a fixed probe vector is bit-identical before and after
+        {
+            auto probe = [&](auto& op) { Eigen::VectorXd x = Eigen::VectorXd::LinSpaced(n, 1.0, 2.0), y = Eigen::VectorXd::Zero(n); op.perform_op(x.data(), y.data()); return y; };
+            auto side = [&](const std::string& name, auto& op, auto& solver) {
+                const Eigen::VectorXd p1 = probe(op);
+                solver.init();
+                bool rejected = false;
+                try { solver.compute(ALL[sel], 100, 1e-8, ALL[srt]); }
+                catch (const std::invalid_argument&) { rejected = true; }
+                catch (const std::exception&) { return; }  // reported by judge() above
+                const Eigen::VectorXd p2 = probe(op);
+                L.evaluations++;
+                if (std::memcmp(p1.data(), p2.data(), sizeof(double) * n) != 0)
+                    L.violate(name + cs + (rejected ? "|rejected-call-changed-operator" : "|call-changed-operator"), rp, "the operator answers a fixed probe vector differently after compute() than before");
+            };
+            { DenseSymShiftSolve<double> op(A); SymEigsShiftSolver<DenseSymShiftSolve<double>> sv(op, 2, 5, 0.3); side("SymEigsShiftSolver", op, sv); }
+            { DenseGenRealShiftSolve<double> op(Gm); GenEigsRealShiftSolver<DenseGenRealShiftSolve<double>> sv(op, 2, 5, 0.3); side("GenEigsRealShiftSolver", op, sv); }
+            { DenseGenComplexShiftSolve<double> op(Gm); GenEigsComplexShiftSolver<DenseGenComplexShiftSolve<double>> sv(op, 2, 5, 0.3, 0.7); side("GenEigsComplexShiftSolver", op, sv); }
+            { SI op(A, B); DenseSymMatProd<double> bop(B); SymGEigsShiftSolver<SI, DenseSymMatProd<double>, GEigsMode::Cayley> sv(op, bop, 2, 5, 0.3); side("SymGEigsShiftSolver<Cayley>", op, sv); }
+        }
     });
 
     // ---------------- (3) sigma = 0 in buckling / Cayley, zero start vectors
